@@ -1545,3 +1545,62 @@ func ruleMetadataSentinel(r *core.Run, p *core.Prog) {
 		r.Undecided(rule, "sites", "-", fmt.Sprintf("%d stores to GPDir.Metadata, %d nil tests found (3 loaders and the test in ReadMetadata on the reference tree)", nStores, nTests))
 	}
 }
+
+// ruleAllocFromStoredLength: GPFile.ReadBlockAtIndex sizes its buffers from lengths stored in the metadata file
+// (Block.Len, Block.RawLen: 32-bit, not validated against anything when the file is decoded) and then reslices the
+// buffer to exactly that length. The capacity asked for must therefore not be able to come out smaller than the length:
+// an arithmetic expression on the stored length that is evaluated in a 32-bit (or narrower) integer type — 2*block.RawLen
+// — wraps for large values, the buffer is too small and the reslice panics: a damaged metadata file crashes the reader
+// instead of being reported. Decided: every size argument of make() in ReadBlockAtIndex that mentions a Block field and
+// contains *, + or << is evaluated in a 64-bit type (its operands are converted first).
+func ruleAllocFromStoredLength(r *core.Run, p *core.Prog) {
+	const rule = "decode-guards"
+	f := r.MustFunc(rule, pkgGpfile, "GPFile.ReadBlockAtIndex")
+	if f == nil {
+		return
+	}
+	info := f.Info()
+	fields := map[types.Object]bool{}
+	for _, nm := range []string{"Len", "RawLen", "Offset"} {
+		if fo := p.FieldObj(pkgStorage, "Block", nm); fo != nil {
+			fields[fo] = true
+		}
+	}
+	sizes := types.SizesFor("gc", "amd64")
+	n := 0
+	for _, c := range core.Calls(f.Decl.Body, true) {
+		if core.CallName(info, c) != "builtin.make" || len(c.Args) < 2 {
+			continue
+		}
+		for ai, a := range c.Args[1:] {
+			a = resolveLocal(info, f.Decl.Body, ast.Unparen(a))
+			mentions := false
+			core.Walk(a, false, func(x ast.Node) bool {
+				if se, ok := x.(*ast.SelectorExpr); ok && fields[core.SelField(info, se)] {
+					mentions = true
+				}
+				return true
+			})
+			if !mentions {
+				continue
+			}
+			n++
+			bad := ""
+			core.Walk(a, false, func(x ast.Node) bool {
+				b, ok := x.(*ast.BinaryExpr)
+				if !ok || (b.Op != token.MUL && b.Op != token.ADD && b.Op != token.SHL) {
+					return true
+				}
+				t, _ := info.TypeOf(b).Underlying().(*types.Basic)
+				if t != nil && t.Info()&types.IsInteger != 0 && sizes.Sizeof(t) < 8 {
+					bad = fmt.Sprintf("%s is evaluated as %s: it wraps for stored lengths of 2^%d and more, the buffer is then smaller than the length it is resliced to and the read panics", core.Str(b), t.Name(), 8*sizes.Sizeof(t)-1)
+				}
+				return true
+			})
+			r.Check(rule, fmt.Sprintf("ReadBlockAtIndex:make#%d:size-arithmetic-does-not-wrap", n), p.Rel(c.Args[1+ai].Pos()), bad == "", bad)
+		}
+	}
+	if n == 0 {
+		r.Undecided(rule, "ReadBlockAtIndex:buffer-allocations", p.Rel(f.Decl.Pos()), "no make() sized from a stored block length found")
+	}
+}
